@@ -353,6 +353,8 @@ func c04AliasOps() []func() *rt.Node {
 		func() *rt.Node { return rt.Assign("=", Id("d"), rt.List(I(0), rt.Map())) },
 		func() *rt.Node { return rt.Assign("=", rt.Index("d", I(1), S("in")), Id("a")) },
 		func() *rt.Node { return rt.Assign("=", rt.Index("d", I(0)), I(3)) },
+		// two index steps down: with b an alias of a[0] this would store an inner list into itself
+		func() *rt.Node { return rt.Assign("=", rt.Index("a", I(0), I(1)), Id("b")) },
 	}
 }
 
@@ -628,7 +630,7 @@ func init() {
 		Rule: "(A) the complete slice table: every list and ASCII string of length 0..5 (thorough 0..6) x (start,end,step) each omitted or in -8..8 (thorough -10..10) or +-(2^63-1) or -2^63, " +
 			"bounds as literals and as variables, object as identifier and as literal, with and without the second colon; non-ASCII strings with a byte-or-rune disjunctive oracle; " +
 			"(B) every index read / write / compound-write path of depth <=3 over 6 nested shapes x 22 keys (in range, negative, -len, len, 2^32, +-2^63 extremes, strings, missing key, float, nil, bool); " +
-			"(C) every sequence of <=4 operations from 18 aliasing/mutation/snapshot operations (aliases, slices, element writes through each handle, storing an existing container into a slot of another one, snapshots); (D) load_json round trips; (F) len() and `in` over 13 value shapes x 12 needles (byte length of non-ASCII strings, nested elements); (E) 6 nested collection literals x 8 deep writes evaluated repeatedly (for-in body, three-clause body inside an if, twice in straight-line code with an alias in between) and the loaded script run twice; all against the reference (Python slice semantics, shared references, add_key snapshots)",
+			"(C) every sequence of <=4 operations from 19 aliasing/mutation/snapshot operations (aliases, slices, element writes through each handle, storing an existing container into a slot of another one, snapshots); (D) load_json round trips; (F) len() and `in` over 13 value shapes x 12 needles (byte length of non-ASCII strings, nested elements); (E) 6 nested collection literals x 8 deep writes evaluated repeatedly (for-in body, three-clause body inside an if, twice in straight-line code with an alias in between) and the loaded script run twice; all against the reference (Python slice semantics, shared references, add_key snapshots)",
 		Assumptions: []string{"encoding/json is the trusted base for the JSON text of snapshots", "unspecified cells: nil-valued slice bounds, indexing through a missing map key"},
 		Run:            c04Run,
 		Replay:         c04Replay,
